@@ -58,6 +58,8 @@ def corruption_sites(pf, path, rng, limit, full):
             scan = oracle.scan_file(os.path.join(path, rel))
             size = os.path.getsize(os.path.join(path, rel))
             out.append((f"delete {rel}", [("delete_file", dict(file=rel))], False))
+            out.append((f"{rel} replaced by a dangling symbolic link (name listed, file missing)", [("_dangling_link", dict(file=rel))], False))
+            out.append((f"{rel} replaced by a directory of that name (name listed, no file)", [("_directory", dict(file=rel))], False))
             for nb in ([1, 8, 64] if full else [rng.choice([1, 8, 64])]):
                 out.append((f"truncate {rel} by {nb}", [("truncate", dict(file=rel, nbytes=nb))], False))
                 out.append((f"extend {rel} by {nb}", [("extend", dict(file=rel, nbytes=nb))], False))
@@ -197,7 +199,16 @@ def info_nf(info):
 
 def apply_corruption(path, calls):
     for kind, site in calls:
-        if kind == "_drop_line":
+        if kind in ("_dangling_link", "_directory"):
+            # the name is still listed in the level directory, but what it names cannot be opened as a file: the binary file is
+            # missing although os.listdir shows its name
+            fp = os.path.join(path, site["file"])
+            os.remove(fp)
+            if kind == "_dangling_link":
+                os.symlink(os.path.join(path, "no_such_target"), fp)
+            else:
+                os.makedirs(fp)
+        elif kind == "_drop_line":
             fp = os.path.join(path, f"Level_{site['level']}", "Cell_H")
             lines = open(fp).read().split("\n")
             del lines[site["lineno"]]
